@@ -133,6 +133,29 @@ pub fn generate(ctx: &mut Ctx, rep: &mut Report, emit: &mut dyn FnMut(&mut Ctx, 
         let d: Vec<i64> = (0..9).map(|_| match rng.below(6) { 0 => -1, 1 => 1, 2 => -2, _ => 0 }).collect();
         emit_case(ctx, rep, &order, &d, &mut base);
     }
+    // long sequential runs inside one stored millisecond (frozen clock; clock stepped back): the sequence numbers
+    // have to keep counting past every narrow-integer boundary (2^8, 2^16, in the thorough tier 2^24)
+    {
+        let frozen = base + 1_000_000 + MS2K;
+        let n_calls = ctx.n(70_000, 17_000_000);
+        bp7::verif_hooks::set_clock_ms(Some(frozen));
+        let first = CreationTimestamp::now();
+        let mut prev = (first.dtntime(), first.seqno());
+        let mut bad: Option<String> = None;
+        for k in 1..n_calls {
+            if k == n_calls / 2 { bp7::verif_hooks::set_clock_ms(Some(frozen - 7)); }   // the clock steps back
+            let t = CreationTimestamp::now();
+            let cur = (t.dtntime(), t.seqno());
+            if cur.0 < prev.0 || (cur.0 == prev.0 && cur.1 != prev.1 + 1) {
+                bad = Some(format!("call {} of a run of sequential calls in one millisecond returned (time {}, seq {}) after (time {}, seq {})", k, cur.0, cur.1, prev.0, prev.1));
+                break;
+            }
+            prev = cur;
+        }
+        bp7::verif_hooks::set_clock_ms(None);
+        rep.support.insert("long_run_one_millisecond".into(), serde_json::json!({"calls": n_calls, "note": "frozen clock, stepped back by 7 ms half way; consecutive sequence numbers demanded"}));
+        if let Some(m) = bad { rep.oracle_fail("", "long-run-one-ms", &m); }
+    }
     // free-running stress on the real clock (supporting evidence only)
     let threads = 16;
     let per = ctx.n(20_000, 200_000);
